@@ -1,4 +1,5 @@
 import H2V.Lemmas.ConnNoPanicPTop
+import H2V.Lemmas.ConnWakePStepSend
 /-
   C08 (no panic) — part 7: the API functions of streams.rs built from `counts.transition` around a
   light closure keep the full invariant `NPI` (in particular: they do not panic).
@@ -38,5 +39,123 @@ theorem refSendInformationalHeaders_npi {E : Nat → Prop} {s : Streams} (h : NP
   unfold Streams.refSendInformationalHeaders
   exact transition_light_npi k _ h (sendInterimInformationalHeaders_lt s k f) (liveAll1 hk)
     (sendInterimInformationalHeaders_ev (ρ := false) s k f) noE he
+
+theorem recordDataFrame_err (c : Counts) (n : Nat) :
+    (c.recordDataFrame n).1.numLocalErrorResetStreams = c.numLocalErrorResetStreams ∧
+    (c.recordDataFrame n).1.maxLocalErrorResetStreams = c.maxLocalErrorResetStreams := by
+  unfold Counts.recordDataFrame
+  dsimp only
+  split
+  · split <;> exact ⟨rfl, rfl⟩
+  · split
+    · split <;> exact ⟨rfl, rfl⟩
+    · exact ⟨rfl, rfl⟩
+
+/-- `ErrOK` of the state a `transition` closure leaves, from `ErrOK` of the result of the `transition` -/
+theorem errOK_of_transition {α : Type} {s : Streams} {k : Nat} {f : Streams → Streams × α}
+    (h : ErrOK (s.transition k f).1) : ErrOK (f s).1 := by
+  have : (s.transition k f).1 = (f s).1.transitionAfter k (s.stream k).isPendingResetExpiration := by
+    unfold Streams.transition; rfl
+  rw [this] at h
+  exact (transitionAfter_errSame _ _ _).errOK_back h
+
+
+/-- a light step (without the error-reset counter) that is also an `Ev` step -/
+structure LE (ks : List Nat) (s s' : Streams) : Prop where
+  lt : LTw ks s s'
+  ev : Ev s s'
+
+theorem LE.refl (ks : List Nat) (s : Streams) : LE ks s s := ⟨.refl _ _, .refl _⟩
+theorem LE.trans {ks ks' : List Nat} {a b c : Streams} (h1 : LE ks a b) (h2 : LE ks' b c) (hs : ∀ k ∈ ks', k ∈ ks) : LE ks a c :=
+  ⟨h1.lt.trans h2.lt hs, .trans h1.ev h2.ev⟩
+theorem LE.of {ks : List Nat} {s s' : Streams} (h : LT ks s s') (e : Ev s s') : LE ks s s' := ⟨h.w, e⟩
+theorem LE.of_fst_eq {ks : List Nat} {s : Streams} {α : Type} {p : Streams × α} {a : Streams} {x : α}
+    (h : p = (a, x)) (e : LE ks s p.1) : LE ks s a := by subst h; exact e
+theorem LE.step0 {ks : List Nat} {a b c : Streams} (h1 : LE ks a b) (h2 : LT [] b c) (e : Ev b c) : LE ks a c :=
+  h1.trans (LE.of h2 e) (fun _ h => absurd h List.not_mem_nil)
+theorem LE.step1 {k : Nat} {a b c : Streams} (h1 : LE [k] a b) (h2 : LT [k] b c) (e : Ev b c) : LE [k] a c :=
+  h1.trans (LE.of h2 e) (fun _ h => h)
+
+theorem NPI.le {E : Nat → Prop} {ks : List Nat} {s s' : Streams} (h : NPI E s) (hle : LE ks s s') (hl : LiveAll s ks)
+    (hE : ∀ k, ¬ E k) : NPI E s' := h.lt hle.lt hl hle.ev (fun _ => hE)
+
+
+theorem stream_modStream_live {s : Streams} {k : Nat} (hl : Live s k) (f : Stream → Stream) (hk : ∀ x, (f x).key = x.key) :
+    (s.modStream k f).stream k = f (s.stream k) := by
+  obtain ⟨x, hx⟩ := hl
+  unfold Streams.modStream
+  rw [hx]
+  rcases setStream_stream s (f x) k with e | ⟨e, _, _⟩
+  · -- impossible: the entry is replaced
+    unfold Streams.stream at e ⊢
+    rw [setStream_get?, hx] at e ⊢
+    simp only [Option.map_some, Option.getD_some, hk, get?_key hx, beq_self_eq_true, if_true] at e ⊢
+  · rw [e, stream_of_get? hx]
+
+theorem stream_modStreamW_live {s : Streams} {k : Nat} (hl : Live s k) (f : Stream → Stream × List String)
+    (hk : ∀ x, (f x).1.key = x.key) : (s.modStreamW k f).stream k = (f (s.stream k)).1 := by
+  obtain ⟨x, hx⟩ := hl
+  have := stream_modStream_live ⟨x, hx⟩ (fun y => (f y).1) hk
+  unfold Streams.modStream at this
+  unfold Streams.modStreamW
+  rw [hx] at this ⊢
+  exact this
+
+/-- `Closed` is absorbing along any function for which ConnWakeP proved its `Step` -/
+theorem closed_absorbing {cx : Option String} {s s' : Streams} (hs : ConnWakeP.Step cx s s') (hkeys : KeysOK s) {k : Nat}
+    (hk : Live s k) (hk' : Live s' k) (hc : (s.stream k).state.isClosed = true) : (s'.stream k).state.isClosed = true := by
+  obtain ⟨a, ha⟩ := hk
+  have hlt : k < s.store.nextKey := by
+    have := hkeys.fresh a (get?_mem ha); rw [get?_key ha] at this; exact this
+  rcases hs.keep k a hlt ha with hn | ⟨b, hb, hst⟩
+  · obtain ⟨b, hb⟩ := hk'; rw [hn] at hb; cases hb
+  · rw [stream_of_get? hb]; rw [stream_of_get? ha] at hc; exact hst.closed hc
+
+theorem State.recvReset_isClosed (x : State) (sid : Nat) (r : Reason) (q : Bool) : (x.recvReset sid r q).isClosed = true := by
+  cases x with
+  | mk inner => cases inner <;> cases q <;> simp [State.recvReset, State.isClosed]
+
+theorem notifySend_state (x : Stream) : x.notifySend.1.state = x.state := by
+  unfold Stream.notifySend
+  cases h1 : x.sendTask <;> cases h2 : x.openTask <;> simp [h1, h2]
+theorem notifyRecv_state (x : Stream) : x.notifyRecv.1.state = x.state := by
+  unfold Stream.notifyRecv; split <;> rfl
+theorem notifyPush_state (x : Stream) : x.notifyPush.1.state = x.state := by
+  unfold Stream.notifyPush; split <;> rfl
+
+theorem recvRecvReset_closed {s s1 : Streams} {k : Nat} {r : Reason} {u : Unit} (hk : Live s k)
+    (h : s.recvRecvReset k r = (s1, .ok u)) : (s1.stream k).state.isClosed = true := by
+  unfold Streams.recvRecvReset at h
+  dsimp only at h
+  -- the state before the `match pre`
+  generalize hp : (if (s.stream k).isPendingAccept = true then _ else (s, (none : Option PErr))) = pre at h
+  obtain ⟨s0, o⟩ := pre
+  have h0 : LT [k] s s0 := LT.of_fst_eq hp (recvRecvReset_pre_lt s k)
+  have hk0 : Live s0 k := h0.keys.live.mpr hk
+  cases o with
+  | some e => simp only [] at h; cases h
+  | none =>
+    simp only [Prod.mk.injEq] at h
+    obtain ⟨h, _⟩ := h
+    subst h
+    have l1 : Live (s0.modStream k fun st => { st with state := st.state.recvReset st.id r st.isPendingSend }) k :=
+      (SameKeys.modStream _ _ _).live.mpr hk0
+    have l2 := (modStreamW_lt _ k Stream.notifySend (fun _ => notifySend_inert _)).keys.live.mpr l1
+    have l3 := (modStreamW_lt _ k Stream.notifyRecv (fun _ => notifyRecv_inert _)).keys.live.mpr l2
+    rw [stream_modStreamW_live l3 _ (fun x => (notifyPush_inert x).key), notifyPush_state,
+      stream_modStreamW_live l2 _ (fun x => (notifyRecv_inert x).key), notifyRecv_state,
+      stream_modStreamW_live l1 _ (fun x => (notifySend_inert x).key), notifySend_state]
+    have := stream_modStream_live hk0 (fun st => { st with state := st.state.recvReset st.id r st.isPendingSend }) (fun _ => rfl)
+    rw [this]
+    exact State.recvReset_isClosed _ _ _ _
+
+theorem LTw.guard {ks : List Nat} {s t : Streams} (c : Bool) (m : String) (h : LTw ks s t)
+    (hc : LiveAll s ks → NPQ s → c = true) : LTw ks s (if c = true then t else t.panic m) := by
+  cases c
+  · simp only [Bool.false_eq_true, if_false]
+    exact ⟨h.keys.trans (SameKeys.panic' _ _), by rw [panic_store]; exact h.ids, h.sid.trans (.of_store (panic_store _ _)),
+      h.ref.trans (.of_store (panic_store _ _)), fun hl hq => by have := hc hl hq; cases this⟩
+  · simp only [if_true]; exact h
+
 
 end H2V.Lemmas.ConnNoPanicP
